@@ -33,7 +33,6 @@ Definition m_dterm (s : option ds) (k : option dc) : @mval F :=
 Definition m_dterm_in (s : option ds) (k : option dc) : @mval F :=
   MRec [("settable_data_command", MRec [("following", MNone); ("last_request", MOpt k (m_dat VC))]);
         ("settable_data_state", MRec [("following", MNone); ("last_request", MOpt s (m_dat VS))])].
-Ltac mr_exec2 := unfold run_fn; repeat (mr_norm; first [reflexivity | mr_split]); mr_norm; try reflexivity.
 Definition m_rd {T} (f : T -> @val F) (o : option (datum T)) : @mval F := MOk (m_opt (m_dat f) o).
 (* a write that may not happen *)
 Definition wr {T} (old new : option T) : option T := match new with Some x => Some x | None => old end.
